@@ -270,12 +270,24 @@ Section Prune.
   Lemma prune_tree_spec d :
     let m := fold_left (prune_visit cfg fin) (walk fin) [] in
     let fin' := fst (fold_left prune_remove m (fin, d)) in
+    wf fin' /\
     forall q, get_segs q fin' = match get_segs q fin with
                                 | Some n => if fn_wh n then None else Some n
                                 | None => None
                                 end.
   Proof.
-    intros m fin' q.
+    intros m fin'.
+    assert (WF' : wf fin').
+    { destruct (visit_facts (walk fin) []) as (M1 & M2 & _ & _).
+      { intros [p n] HI. apply walk_refines in HI; [|exact WF]. simpl. rewrite get_refines, HI. reflexivity. }
+      { intros kv []. }
+      { constructor. }
+      destruct (remove_phase (fold_left (prune_visit cfg fin) (walk fin) []) (fin, d) [] M1 M2) as (done' & [W' _] & _ & _).
+      { intros kv p _ _ []. }
+      { intros q0 []. }
+      { split; [exact WF|]. intro q0. reflexivity. }
+      exact W'. }
+    split; [exact WF'|]. intro q.
     destruct (visit_facts (walk fin) []) as (M1 & M2 & _ & M4).
     { intros [p n] HI. apply walk_refines in HI; [|exact WF]. simpl. rewrite get_refines, HI. reflexivity. }
     { intros kv []. }
@@ -378,17 +390,21 @@ Proof.
   - simpl. f_equal. apply IH. lia.
 Qed.
 
-(* the last view after the final pruning, default requirer *)
-Theorem final_prune_only_whiteouts_on_Dp_lemma cfg im st :
+(* the last view after the final pruning, default requirer: exactly the whiteout values are gone *)
+Lemma last_view_pruned cfg im st0 :
   Dp cfg im = true -> prune_safe_p cfg im = true -> cfg_req cfg = None ->
-  load cfg im = Some st ->
-  forall p, p <> [] -> (0 < length (init_slots im))%nat ->
-    impl_lookup st (length (init_slots im) - 1) p = spec_lookup cfg im (length (init_slots im) - 1) p.
+  load_unpruned cfg im = Some st0 -> (0 < length (init_slots im))%nat ->
+  let i := (length (init_slots im) - 1)%nat in
+  wf (nth i (st_chains (prune cfg st0)) empty_trie) /\
+  forall q, get_segs q (nth i (st_chains (prune cfg st0)) empty_trie) =
+            match get_segs q (nth i (st_chains st0) empty_trie) with
+            | Some n => if fn_wh n then None else Some n
+            | None => None
+            end.
 Proof.
-  intros DP PS REQ LD p Np Hn.
-  unfold load in LD. destruct (load_unpruned cfg im) as [st0|] eqn:LU; [|discriminate]. inversion LD; subst st; clear LD.
+  intros DP PS REQ LU Hn.
   set (n := length (init_slots im)) in *.
-  set (i := (n - 1)%nat).
+  set (i := (n - 1)%nat). cbv zeta. fold n. fold i.
   assert (Hi : (i < n)%nat) by (unfold i; lia).
   destruct (view_is_fold_of_fills_lemma cfg im st0 LU) as [LEN FOLD].
   destruct (FOLD i Hi) as (ops & EOPS & _).
@@ -485,15 +501,28 @@ Proof.
   assert (CH : st_chains st0 = firstn i (st_chains st0) ++ [fin]).
   { apply split_last_nth. rewrite LEN. unfold i. fold n. lia. }
   assert (LF : length (firstn i (st_chains st0)) = i) by (rewrite firstn_length, LEN; fold n; lia).
-  unfold impl_lookup, prune, prune_with. rewrite CH, rev_app_distr. cbn [rev app].
+  unfold prune, prune_with. rewrite CH, rev_app_distr. cbn [rev app].
   pose proof (prune_tree_spec cfg REQ fin WFfin NOLINK WHH (st_disk st0)) as PT. cbv zeta in PT.
   destruct (fold_left prune_remove (fold_left (prune_visit cfg fin) (walk fin) []) (fin, st_disk st0)) as [fin' d'] eqn:FL.
   simpl in PT. cbn [st_chains]. rewrite rev_involutive.
   rewrite app_nth2 by (rewrite LF; lia). rewrite LF, Nat.sub_diag. cbn [nth].
-  rewrite PT.
-  rewrite <- (view_eq_overlay_on_Dp_unpruned_lemma cfg im st0 DP LU i p Hi Np).
-  unfold impl_lookup. fold fin.
-  destruct (get_segs p fin) as [np|]; [|reflexivity].
+  exact PT.
+Qed.
+
+Theorem final_prune_only_whiteouts_on_Dp_lemma cfg im st :
+  Dp cfg im = true -> prune_safe_p cfg im = true -> cfg_req cfg = None ->
+  load cfg im = Some st ->
+  forall p, p <> [] -> (0 < length (init_slots im))%nat ->
+    impl_lookup st (length (init_slots im) - 1) p = spec_lookup cfg im (length (init_slots im) - 1) p.
+Proof.
+  intros DP PS REQ LD p Np Hn.
+  unfold load in LD. destruct (load_unpruned cfg im) as [st0|] eqn:LU; [|discriminate]. inversion LD; subst st; clear LD.
+  destruct (last_view_pruned cfg im st0 DP PS REQ LU Hn) as [_ PT]. cbv zeta in PT.
+  unfold impl_lookup. rewrite PT.
+  assert (Hi : (length (init_slots im) - 1 < length (init_slots im))%nat) by lia.
+  rewrite <- (view_eq_overlay_on_Dp_unpruned_lemma cfg im st0 DP LU _ p Hi Np).
+  unfold impl_lookup.
+  destruct (get_segs p (nth (length (init_slots im) - 1) (st_chains st0) empty_trie)) as [np|]; [|reflexivity].
   destruct (fn_wh np) eqn:W; cbn iota; unfold vent_of_node; rewrite W; reflexivity.
 Qed.
 
